@@ -30,7 +30,7 @@ TEXT_ATOMS = (
                 "!", "?", "]", "]]", ";", ":", "é", "日本", " ", " ",
                 "ß", "\U0001F600"]
 )
-CR_ATOMS = ["\r\n", "\r", "\n\r"]
+CR_ATOMS = ["\r\n", "\r", "\n\r", "\r\r", "\r\r\n"]
 
 
 def _fix_dollar(s: str) -> str:
@@ -68,9 +68,13 @@ def attr_value(form, cr):
         return st.just("")
     if form == "uq":
         # characters both the tokenizer and the tag parser accept unquoted
-        return st.lists(st.sampled_from(list("abc019-._:;,+*#@!?()[]{}|~^%&é日")),
-                        min_size=1, max_size=5).map(
-                            lambda l: _fix_dollar("".join(l)))
+        # ('/' is fine except right before the closing '>')
+        def fixuq(l):
+            s = _fix_dollar("".join(l))
+            return s + "x" if s.endswith("/") else s
+        return st.lists(st.sampled_from(
+            list("abc019-._:;,+*#@!?()[]{}|~^%&é日") + ["/", "/", "a/b"]),
+            min_size=1, max_size=5).map(fixuq)
     bad = '"' if form == "dq" else "'"
     atoms = [a for a in TEXT_ATOMS if bad not in a] + ["<", "<b>", "/>", ">"]
     if cr:
@@ -80,7 +84,8 @@ def attr_value(form, cr):
 
 
 @st.composite
-def attrs(draw, cr=True, prefixes=(), max_attrs=4, forms=("dq", "dq", "sq", "uq", "none")):
+def attrs(draw, cr=True, prefixes=(), max_attrs=4,
+          forms=("dq", "dq", "sq", "uq", "none"), soup=False):
     ws = WS if cr else WS_NOCR
     out = []
     n = draw(st.integers(0, max_attrs))
@@ -90,6 +95,10 @@ def attrs(draw, cr=True, prefixes=(), max_attrs=4, forms=("dq", "dq", "sq", "uq"
         name = draw(names(prefixes))
         if out and draw(st.integers(0, 9)) == 0:
             name = out[-1][1]            # duplicate attribute
+        if soup and draw(st.integers(0, 11)) == 0:
+            # tag soup: a digit-led "attribute" (the lexer ends the tag
+            # there; whatever follows is character data)
+            name = draw(st.sampled_from(list("0129"))) + name
         if form == "none":
             eql = eqr = ""
         else:
@@ -149,7 +158,7 @@ PI_NAMES = ["pi", "php", "target", "x-y", "Python", "pythonx"]
 
 
 @st.composite
-def nodes(draw, depth, cr=True, prefixes=(), allow_unclosed=True):
+def nodes(draw, depth, cr=True, prefixes=(), allow_unclosed=True, soup=False):
     ws = WS if cr else WS_NOCR
     kind = draw(st.sampled_from(
         ["t", "t", "e", "e", "e", "c", "cd", "pi"] if depth > 0
@@ -170,20 +179,20 @@ def nodes(draw, depth, cr=True, prefixes=(), allow_unclosed=True):
             text = " " + text
         return ["pi", draw(st.sampled_from(PI_NAMES)), text]
     name = draw(names(prefixes))
-    a = draw(attrs(cr, prefixes))
-    sp = draw(st.sampled_from(["", "", "", " ", "\n", "  "] if cr or True
-                              else [""]))
-    if not cr:
-        sp = sp.replace("\r", "")
     form = draw(st.integers(0, 9))
+    no_end = kind == "e0" or form == 0 or (allow_unclosed and form == 1)
+    # a digit-led attribute name turns the start tag into character data,
+    # so it is only generated where no end tag follows
+    a = draw(attrs(cr, prefixes, soup=soup and no_end))
+    sp = draw(st.sampled_from(["", "", "", " ", "\n", "  "]))
     if kind == "e0" or form == 0:
         # self-closing
         return ["e", name, a, [sp, "/>"], [], None]
     if allow_unclosed and form == 1:
         # unclosed start tag (tag soup): no children of its own
         return ["e", name, a, [sp, ">"], [], None]
-    children = draw(st.lists(nodes(depth - 1, cr, prefixes, allow_unclosed),
-                             max_size=3))
+    children = draw(st.lists(
+        nodes(depth - 1, cr, prefixes, allow_unclosed, soup), max_size=3))
     endspace = draw(st.sampled_from(["", "", "", " ", "\n", " \n "]))
     return ["e", name, a, [sp, ">"], children, endspace]
 
@@ -233,7 +242,7 @@ FOREIGN = {"foo": "urn:foo", "svg": "http://www.w3.org/2000/svg",
 
 
 @st.composite
-def documents(draw, max_depth=3, xml=None, cr=True):
+def documents(draw, max_depth=3, xml=None, cr=True, soup=False):
     """A whole document: optional XML declaration, optional doctype, a root
     element declaring the foreign prefixes, arbitrary content."""
     if xml is None:
@@ -261,7 +270,8 @@ def documents(draw, max_depth=3, xml=None, cr=True):
         if draw(st.booleans()):
             root_attrs.append([" ", "xmlns", "dq", "", "",
                                "http://www.w3.org/1999/xhtml"])
-    children = draw(st.lists(nodes(max_depth, cr, prefixes), max_size=4))
+    children = draw(st.lists(nodes(max_depth, cr, prefixes, soup=soup),
+                             max_size=4))
     root = ["e", draw(names()), root_attrs, ["", ">"], children,
             draw(st.sampled_from(["", "", " "]))]
     tail = draw(st.lists(nodes(0, cr, ()), max_size=2))
